@@ -30,6 +30,7 @@ HINTS = {
     'justify_call_populate': 'lemma_trunc(kv_fin.now, kv_old.gran); lemma_trunc_monotone(kv_old.now, kv_fin.now, kv_old.gran);',
     'justify_namedtempfile_new_in': 'lemma_trunc(kv_old.now, kv_old.gran);',
     'justify_tempfile_in': 'lemma_trunc(kv_old.now, kv_old.gran);',
+    'justify_builder_tempfile_in': 'lemma_trunc(kv_old.now, kv_old.gran);',
     'justify_tempfile': 'lemma_trunc(kv_old.now, kv_old.gran);',
     'justify_copy_2': 'lemma_trunc(kv_fin.now, kv_old.gran); lemma_path_split_w(pv(to));',
     'justify_create_dir_all': '''assert forall|d: PathV| #[trigger] kv_fin.dirs.contains(d) implies !kv_fin.in_cache_namespace(d) by {
